@@ -47,4 +47,4 @@ finally:
     subprocess.run(["/venv/bin/python", os.path.join(VERIF, "vlib", "py2lean.py")], capture_output=True)
     for ev, data in saved.items():
         open(ev, "wb").write(data)
-json.dump(out, open(os.path.join(d, "detection.json"), "w"), indent=1)
+json.dump(out, open(os.path.join(d, os.environ.get("SEEDED_OUT", "detection.json")), "w"), indent=1)
